@@ -63,8 +63,11 @@ def explore(task):
     fn = llm_fn_for(path, version)
     nonce = [0]
 
-    def run_conv(fault_turn, fault_idx, kind):
-        """returns list of Turn; faults are indices relative to the action log at the start of the faulted turn"""
+    def run_conv(fault_turn, fault_idx, kind, fresh=False):
+        """returns list of Turn; faults are indices relative to the action log at the start of the faulted turn.
+        fresh=True: from the faulted turn on the conversation is served by a NEW instance (the client brings the
+        message history / the serialised state) - nothing of the earlier turns is cached there."""
+        nonlocal world
         nonce[0] += 1
         ctx = {} if v2 else []
         out = []
@@ -72,6 +75,8 @@ def explore(task):
             user_text = f"U{t}x{nonce[0]}q hello"
             faults = ()
             if t == fault_turn:
+                if fresh:
+                    world = build(version, dialog, exceptions)
                 base = len(world.action_log)
                 faults = tuple(base + i for i in fault_idx)
             if v2:
@@ -108,18 +113,24 @@ def explore(task):
     index_sets = [(i,) for i in range(n_sites)]
     if pairs:
         index_sets += list(itertools.combinations(range(n_sites), 2))
-    for fault_turn in range(1, turns):  # the last turn is the fault-free follow-up
-        for idx in index_sets:
-            for kind in kinds:
-                conv = run_conv(fault_turn, idx, kind)
+    plan = [(ft, idx, kind, False) for ft in range(1, turns) for idx in index_sets for kind in kinds]
+    # the faulted turn (turn 2) served by a fresh instance: single faults, raise only
+    plan += [(2, (i,), "raise", True) for i in range(n_sites)]
+    for fault_turn, idx, kind, fresh in plan:
+        if True:
+            if True:
+                conv = run_conv(fault_turn, idx, kind, fresh)
                 res["conversations"] += 1
                 res["faults_injected"] += len(idx)
                 ft = conv[fault_turn - 1] if len(conv) >= fault_turn else conv[-1]
                 failed_sites = [(a.get("rail") or a["action"]) for a in ft.actions if a.get("fault")]
-                info = dict(info0, fault_turn=fault_turn, fault_indices=list(idx), fault_kind=kind, failed_sites=failed_sites)
+                info = dict(info0, fault_turn=fault_turn, fault_indices=list(idx), fault_kind=kind, failed_sites=failed_sites, fresh_instance=fresh)
 
                 def bad(sig, what):
-                    res["viol"].append((f"{sig}:{'v2' if v2 else 'v1'}:{path}:{'+'.join(failed_sites) or 'none'}:{kind}", what, info))
+                    if fresh:
+                        res["viol"].append((f"{sig}:{'v2' if v2 else 'v1'}:fresh-instance-uncached-history", what, info))
+                    else:
+                        res["viol"].append((f"{sig}:{'v2' if v2 else 'v1'}:{path}:{'+'.join(failed_sites) or 'none'}:{kind}", what, info))
 
                 bad_turn = next((t for t in conv if t.exc is not None), None)
                 if bad_turn is not None:
